@@ -109,7 +109,7 @@ def s2_s3(ctx):
     # ---- S2 universe-driven alpha model
     qn = 'SingleSignalAlphaModel.__call__'
     fn = ctx.fn(qn)
-    ps = summarise(ctx, qn, policy=no_inline)
+    ps = summarise(ctx, qn, policy=lambda a, b, d: default_policy(a, b, d) and b.cls is not None and b.cls.name == 'SingleSignalAlphaModel')
     ok1 = len(ps) == 1 and ps[0].outcome == 'return'
     if ctx.require(ok1, 'C19.S2', 'the universe-driven alpha model is straight-line (no memo, no early exit)', fn.site(), [cond_str(p)[:80] for p in ps], key='C19.S2|straight'):
         v = ps[0].value
